@@ -57,7 +57,13 @@ Record vs_ok (g : gstate) (i : nat) (t : tx) (v : vstate) : Prop := {
   vo_comm : v_committed v <> None -> forall j, j <= i -> is_done g j = true;
   vo_started : startedb g i = true -> world_lock (reqs_of t) <> NoLock -> v_base v <> None;
   vo_order : v_done v = true -> forall a, eff_writer t a = true -> earlier_done g i a;
-  vo_base0 : i = 0 -> v_base v <> None
+  vo_base0 : i = 0 -> v_base v <> None;
+  (* the worker took its snapshot before its first attempt *)
+  vo_snap : startedb g i = true ->
+            exists s, v_snap v = Some s /\ (world_lock (reqs_of t) = WriteLock -> s_base s <> None);
+  (* a live account is in the snapshot, or has the base recorded when it was resolved *)
+  vo_lbase : forall a, v_accts v a = Some (mkLas WriteLock SLive) ->
+             v_snap v = None \/ (exists s, v_snap v = Some s /\ s_accts s a <> None) \/ v_lbase v a <> None
 }.
 
 Record Inv1 (g : gstate) : Prop := {
@@ -109,7 +115,7 @@ Lemma vs_ok_mono g g' i t v : done_mono g g' ->
   finishedb g' i = finishedb g i -> (startedb g' i = true -> startedb g i = true) ->
   vs_ok g i t v -> vs_ok g' i t v.
 Proof.
-  intros M F S [H1 H2 H3 H4 H5 H6 H7 H8 H9]. constructor; auto.
+  intros M F S [H1 H2 H3 H4 H5 H6 H7 H8 H9 H10 H11]. constructor; auto.
   - intro a. specialize (H2 a). destruct (v_accts v a), (entry (reqs_of t) a); auto.
     eapply las_ok_mono; eauto.
   - congruence.
@@ -189,7 +195,7 @@ Lemma vs_ok_set_committed g j t v c : g_vs g j = Some v -> vs_ok g j t v ->
 Proof.
   intros Hv OK D.
   assert (DM : done_mono g (set_vs g j (set_committed v c))) by (eapply done_mono_set_vs; eauto).
-  destruct OK as [H1 H2 H3 H4 H5 H6 H7 H8 H9]. constructor; cbn.
+  destruct OK as [H1 H2 H3 H4 H5 H6 H7 H8 H9 H10 H11]. constructor; cbn.
   - exact H1.
   - intro a. specialize (H2 a). destruct (v_accts v a), (entry (reqs_of t) a); auto.
     eapply las_ok_mono; eauto.
@@ -200,6 +206,8 @@ Proof.
   - exact H7.
   - intros Hd a Ha. eapply earlier_done_mono; eauto.
   - exact H9.
+  - exact H10.
+  - exact H11.
 Qed.
 
 (* ------------------------------------------------------------------ *)
@@ -221,7 +229,8 @@ Proof. unfold vs_only. intuition congruence. Qed.
 Definition vs_sim (real : world) (v v' : vstate) : Prop :=
   v_accts v' = v_accts v /\ v_wlock v' = v_wlock v /\ v_done v' = v_done v /\ v_keys v' = v_keys v /\
   (v_committed v' = v_committed v \/ (v_committed v = None /\ v_committed v' = Some real)) /\
-  (v_base v' = v_base v \/ v_base v = None).
+  (v_base v' = v_base v \/ v_base v = None) /\
+  v_lbase v' = v_lbase v /\ v_snap v' = v_snap v.
 
 Definition st_sim (g g' : gstate) : Prop :=
   vs_only g g' /\
@@ -239,7 +248,7 @@ Proof. split; [apply vs_only_refl|]. intro m. destruct (g_vs g m); auto using vs
 
 Lemma vs_sim_trans r v1 v2 v3 : vs_sim r v1 v2 -> vs_sim r v2 v3 -> vs_sim r v1 v3.
 Proof.
-  intros (A1 & A2 & A3 & A4 & A5 & A6) (B1 & B2 & B3 & B4 & B5 & B6).
+  intros (A1 & A2 & A3 & A4 & A5 & A6 & A7 & A8) (B1 & B2 & B3 & B4 & B5 & B6 & B7 & B8).
   repeat split; try congruence.
   - destruct A5 as [A5|[A5 A5']], B5 as [B5|[B5 B5']]; try (left; congruence); try (right; split; congruence).
   - destruct A6 as [A6|A6], B6 as [B6|B6]; try (left; congruence); right; congruence.
@@ -293,7 +302,7 @@ Lemma vs_ok_set_base g j t v b : g_vs g j = Some v -> vs_ok g j t v -> b <> None
 Proof.
   intros Hv OK Hb D.
   assert (DM : done_mono g (set_vs g j (set_base v b))) by (eapply done_mono_set_vs; eauto).
-  destruct OK as [H1 H2 H3 H4 H5 H6 H7 H8 H9]. constructor; cbn.
+  destruct OK as [H1 H2 H3 H4 H5 H6 H7 H8 H9 H10 H11]. constructor; cbn.
   - exact H1.
   - intro a. specialize (H2 a). destruct (v_accts v a), (entry (reqs_of t) a); auto.
     eapply las_ok_mono; eauto.
@@ -304,6 +313,8 @@ Proof.
   - intros _ _. exact Hb.
   - intros Hd a Ha. eapply earlier_done_mono; eauto.
   - intros _. exact Hb.
+  - exact H10.
+  - exact H11.
 Qed.
 
 Lemma realize_base_inv1 g i v g' : Inv1 g -> g_vs g i = Some v -> realize_base g i = Some g' ->
@@ -334,6 +345,38 @@ Proof.
     + intros _ m Hm. apply D. lia.
 Qed.
 
+(* Realize / realizeBaseInLock of i touch only the virtual states i-1 and i *)
+Lemma realize_others g j g' : realize g j = Some g' -> forall m, m <> j -> g_vs g' m = g_vs g m.
+Proof.
+  unfold realize. destruct (forallb (is_done g) (chain g j)); try discriminate.
+  destruct (g_vs g j) as [v|]; [|intro E; inversion E; auto].
+  destruct (v_committed v); intro E; inversion E; subst; auto.
+  intros m Hm. cbn. destruct (Nat.eqb_spec m j); congruence.
+Qed.
+
+Lemma realize_base_same g j g' m v v' : realize g j = Some g' -> g_vs g m = Some v -> g_vs g' m = Some v' ->
+  v_base v' = v_base v.
+Proof.
+  unfold realize. destruct (forallb (is_done g) (chain g j)); try discriminate.
+  destruct (g_vs g j) as [u|] eqn:Hu; [|intro E; inversion E; subst; congruence].
+  destruct (v_committed u); intro E; inversion E; subst; try congruence.
+  cbn. destruct (Nat.eqb_spec m j); subst; intros H1 H2; [|congruence].
+  inversion H2; subst. rewrite Hu in H1. inversion H1; subst. reflexivity.
+Qed.
+
+Lemma realize_base_others g i g' : realize_base g i = Some g' ->
+  forall m, m <> i -> S m <> i -> g_vs g' m = g_vs g m.
+Proof.
+  unfold realize_base. destruct (g_vs g i) as [v|]; try discriminate.
+  destruct (v_base v); [intro E; inversion E; auto|].
+  destruct i as [|j]; try discriminate.
+  destruct (realize g j) as [g1|] eqn:R; try discriminate.
+  destruct (g_vs g1 j) as [p|]; try discriminate.
+  destruct (g_vs g1 (S j)) as [v'|]; try discriminate.
+  intro E; inversion E; subst. intros m H1 H2. cbn.
+  destruct (Nat.eqb_spec m (S j)); [congruence|]. apply (realize_others _ _ _ R). congruence.
+Qed.
+
 (* ------------------------------------------------------------------ *)
 (* account access                                                       *)
 
@@ -347,21 +390,18 @@ Proof.
   - exfalso. apply (H3 j); auto.
 Qed.
 
-Definition upd_accts (v : vstate) (a : acct) (l : las) : vstate :=
-  set_accts v (fun x => if Nat.eqb x a then Some l else v_accts v x).
-
-Lemma set_las_eq g i v a l : g_vs g i = Some v -> set_las g i a l = set_vs g i (upd_accts v a l).
+Lemma set_las_eq g i v a l b : g_vs g i = Some v -> set_las g i a l b = set_vs g i (upd_accts v a l b).
 Proof. intro H. unfold set_las. now rewrite H. Qed.
 
 (* the ways GetAccountState can succeed *)
 Inductive acc_kind (g : gstate) (i : nat) (a : acct) (g' : gstate) (h : handle) : Prop :=
 | AK_acqw v d :
     g_vs g i = Some v -> v_accts v a = Some (mkLas WriteLock (SDep d)) -> is_done g d = true ->
-    g' = set_vs g i (upd_accts v a (mkLas WriteLock SLive)) -> h = HLive -> acc_kind g i a g' h
+    g' = set_vs g i (upd_accts v a (mkLas WriteLock SLive) (g_real g a)) -> h = HLive -> acc_kind g i a g' h
 | AK_acqr v l d x :
     g_vs g i = Some v -> v_accts v a = Some (mkLas l (SDep d)) -> l <> WriteLock -> is_done g d = true ->
     peek g d a = Some x ->
-    g' = set_vs g i (upd_accts v a (mkLas l (SRO x))) -> h = HRO x -> acc_kind g i a g' h
+    g' = set_vs g i (upd_accts v a (mkLas l (SRO x)) x) -> h = HRO x -> acc_kind g i a g' h
 | AK_live v l :
     g_vs g i = Some v -> v_accts v a = Some (mkLas l SLive) -> g' = g -> h = HLive -> acc_kind g i a g' h
 | AK_ro v l x :
@@ -407,14 +447,14 @@ Proof.
       eapply AK_world; eauto; try congruence. rewrite C, W, B. auto.
 Qed.
 
-Lemma vs_ok_acquire g i t v a l' : g_vs g i = Some v -> vs_ok g i t v ->
+Lemma vs_ok_acquire g i t v a l' b : g_vs g i = Some v -> vs_ok g i t v ->
   v_accts v a <> None ->
   (forall e, entry (reqs_of t) a = Some e -> las_ok g i (v_done v) a e l') ->
-  vs_ok (set_vs g i (upd_accts v a l')) i t (upd_accts v a l').
+  vs_ok (set_vs g i (upd_accts v a l' b)) i t (upd_accts v a l' b).
 Proof.
   intros Hv OK Hne Hl.
-  assert (DM : done_mono g (set_vs g i (upd_accts v a l'))) by (eapply done_mono_set_vs; eauto).
-  destruct OK as [H1 H2 H3 H4 H5 H6 H7 H8 H9]. constructor; cbn.
+  assert (DM : done_mono g (set_vs g i (upd_accts v a l' b))) by (eapply done_mono_set_vs; eauto).
+  destruct OK as [H1 H2 H3 H4 H5 H6 H7 H8 H9 H10 H11]. constructor; cbn.
   - exact H1.
   - intro x. destruct (Nat.eqb_spec x a); subst.
     + specialize (H2 a). destruct (v_accts v a); try congruence.
@@ -428,10 +468,14 @@ Proof.
   - exact H7.
   - intros Hd x Hx. eapply earlier_done_mono; eauto.
   - exact H9.
+  - exact H10.
+  - intros x. destruct (Nat.eqb_spec x a); subst.
+    + intros _. right. right. congruence.
+    + apply H11.
 Qed.
 
-Lemma is_done_upd_accts g i v a l m : g_vs g i = Some v ->
-  is_done (set_vs g i (upd_accts v a l)) m = is_done g m.
+Lemma is_done_upd_accts g i v a l b m : g_vs g i = Some v ->
+  is_done (set_vs g i (upd_accts v a l b)) m = is_done g m.
 Proof.
   intro H. rewrite is_done_set_vs. destruct (Nat.eqb_spec m i); subst; auto.
   unfold is_done. now rewrite H.
@@ -495,7 +539,8 @@ Lemma inv1_set_work g i p : Inv1 g -> g_work g i <> None ->
   finishedb (set_work g i p) i = finishedb g i ->
   (startedb (set_work g i p) i = true -> startedb g i = true \/
      forall v t, g_vs g i = Some v -> nth_error txs i = Some t ->
-                 world_lock (reqs_of t) <> NoLock -> v_base v <> None) ->
+                 (world_lock (reqs_of t) <> NoLock -> v_base v <> None) /\
+                 exists s, v_snap v = Some s /\ (world_lock (reqs_of t) = WriteLock -> s_base s <> None)) ->
   Inv1 (set_work g i p).
 Proof.
   intros [I1 I2 I3 I4 I5 I6 I7] Hw F S.
@@ -506,9 +551,10 @@ Proof.
     + exfalso. apply Hw. apply I5. exact Hm.
     + apply I5. exact Hm.
   - intros m v t Hv Ht. cbn in Hv. destruct (Nat.eq_dec m i) as [->|Hne].
-    + pose proof (I6 _ _ _ Hv Ht) as [H1 H2 H3 H4 H5 H6 H7 H8 H9]. constructor; auto.
+    + pose proof (I6 _ _ _ Hv Ht) as [H1 H2 H3 H4 H5 H6 H7 H8 H9 H10 H11]. constructor; auto.
       * congruence.
-      * intros St Wl. destruct (S St) as [S'|S']; eauto.
+      * intros St Wl. destruct (S St) as [S'|S']; eauto. apply (S' _ _ Hv Ht); auto.
+      * intros St. destruct (S St) as [S'|S']; eauto. apply (S' _ _ Hv Ht).
     + eapply vs_ok_mono; eauto.
       * unfold finishedb; cbn. destruct (Nat.eqb_spec m i); congruence.
       * unfold startedb; cbn. destruct (Nat.eqb_spec m i); congruence.
@@ -550,12 +596,12 @@ Proof.
   assert (St : startedb g i = true) by (unfold startedb; now rewrite Hw).
   assert (Hbase : world_lock (reqs_of t) <> NoLock -> forall m, m < i -> is_done g m = true).
   { intros Wl. apply (vo_base _ _ _ _ OK). apply (vo_started _ _ _ _ OK); auto. }
-  assert (exists wl' cm', g' = set_vs (set_rct g i r) i (mkV wl' accts' (v_keys v) (v_base v) cm' true) /\
+  assert (exists wl' cm', g' = set_vs (set_rct g i r) i (mkV wl' accts' (v_keys v) (v_base v) cm' true (v_lbase v) (v_snap v)) /\
             wl' = match world_lock (reqs_of t) with WriteLock => WriteUnlock | x => x end /\
             (cm' <> None -> v_committed v <> None \/ world_lock (reqs_of t) = WriteLock)) as (wl' & cm' & -> & Hwl & Hcm).
   { rewrite (vo_wlock _ _ _ _ OK), Hnd in H.
     destruct (world_lock (reqs_of t)) eqn:Wl; inversion H; subst; do 2 eexists; split; eauto; split; eauto. }
-  set (v' := mkV wl' accts' (v_keys v) (v_base v) cm' true).
+  set (v' := mkV wl' accts' (v_keys v) (v_base v) cm' true (v_lbase v) (v_snap v)).
   set (g1 := set_vs (set_rct g i r) i v').
   assert (DM : done_mono g (set_work g1 i WRelease)).
   { intros m Hm. unfold is_done in *. cbn. destruct (Nat.eqb m i); auto. }
@@ -605,6 +651,12 @@ Proof.
            specialize (ED j Hj Ej). unfold is_done in *. cbn in ED.
            destruct (Nat.eqb_spec j i); [lia|exact ED].
       * apply (vo_base0 _ _ _ _ OK).
+      * intros _. apply (vo_snap _ _ _ _ OK). exact St.
+      * intros a Ha. exfalso. pose proof (vo_accts _ _ _ _ OK a) as LA.
+        destruct (v_accts v a) as [l|] eqn:Hl; [|unfold accts' in Ha; rewrite Hl in Ha; discriminate].
+        destruct (entry (reqs_of t) a) as [e|] eqn:He; try contradiction.
+        destruct (Hlas a l e Hl He) as (l' & El' & [L1 _]). rewrite El' in Ha. inversion Ha; subst l'.
+        cbn in L1. destruct e; discriminate.
     + assert (Hvm' : g_vs g m = Some vm) by (destruct (Nat.eqb_spec m i); congruence).
       eapply vs_ok_mono; eauto.
       * unfold finishedb; cbn. destruct (Nat.eqb_spec m i); congruence.
@@ -614,17 +666,24 @@ Qed.
 (* ------------------------------------------------------------------ *)
 (* worker steps                                                         *)
 
+Lemma access_keep g i a g' h v : Inv1 g -> access g i a = Some (g', h) -> g_vs g i = Some v ->
+  exists v', g_vs g' i = Some v' /\ (v_base v <> None -> v_base v' <> None) /\ v_snap v' = v_snap v.
+Proof.
+  intros I H Hv. destruct (access_cases _ _ _ _ _ H) as
+    [v0 d Hv0 Ha D -> ->|v0 l d x Hv0 Ha Hl D P -> ->|v0 l Hv0 Ha -> ->|v0 l x Hv0 Ha -> ->|v0 v' Hv0 Ha W R Hv' Hh Hb'];
+  assert (v0 = v) by congruence; subst v0.
+  - eexists. split; [cbn; now rewrite Nat.eqb_refl|]. auto.
+  - eexists. split; [cbn; now rewrite Nat.eqb_refl|]. auto.
+  - eauto.
+  - eauto.
+  - destruct (realize_base_inv1 _ _ _ _ I Hv R) as (_ & [_ S] & (v'' & Hv'' & B & _) & _).
+    specialize (S i). rewrite Hv, Hv'' in S. destruct S as (_ & _ & _ & _ & _ & _ & _ & Sn). eauto.
+Qed.
+
 Lemma access_base g i a g' h v : Inv1 g -> access g i a = Some (g', h) -> g_vs g i = Some v ->
   v_base v <> None -> exists v', g_vs g' i = Some v' /\ v_base v' <> None.
 Proof.
-  intros I H Hv Hb. destruct (access_cases _ _ _ _ _ H) as
-    [v0 d Hv0 Ha D -> ->|v0 l d x Hv0 Ha Hl D P -> ->|v0 l Hv0 Ha -> ->|v0 l x Hv0 Ha -> ->|v0 v' Hv0 Ha W R Hv' Hh Hb'];
-  assert (v0 = v) by congruence; subst v0.
-  - eexists. split; [cbn; now rewrite Nat.eqb_refl|]. exact Hb.
-  - eexists. split; [cbn; now rewrite Nat.eqb_refl|]. exact Hb.
-  - eauto.
-  - eauto.
-  - destruct (realize_base_inv1 _ _ _ _ I Hv R) as (_ & _ & (v'' & Hv'' & B & _) & _). eauto.
+  intros I H Hv Hb. destruct (access_keep _ _ _ _ _ _ I H Hv) as (v' & Hv' & B & _). eauto.
 Qed.
 
 Lemma not_done_of_phase g i v t : Inv1 g -> g_vs g i = Some v -> nth_error txs i = Some t ->
@@ -639,39 +698,120 @@ Proof.
   - rewrite (vo_wlock _ _ _ _ OK), D. auto.
 Qed.
 
-Lemma step_start_inv1 g i g' : Inv1 g -> g_work g i = Some WStart -> step_start txs g i = Some g' -> Inv1 g'.
+Lemma vs_ok_set_snap g i t v s : g_vs g i = Some v -> vs_ok g i t v -> startedb g i = false ->
+  (forall a, v_accts v a = Some (mkLas WriteLock SLive) -> s_accts s a <> None) ->
+  vs_ok (set_vs g i (set_snap v s)) i t (set_snap v s).
 Proof.
-  intros I Hw H. unfold step_start in H.
-  destruct (nth_error txs i) as [t|] eqn:Ht; try discriminate.
-  destruct (g_vs g i) as [v|] eqn:Hv; try discriminate.
+  intros Hv OK Hs Hl.
+  assert (DM : done_mono g (set_vs g i (set_snap v s))) by (eapply done_mono_set_vs; eauto).
+  destruct OK as [H1 H2 H3 H4 H5 H6 H7 H8 H9 H10 H11]. constructor; cbn.
+  - exact H1.
+  - intro a. specialize (H2 a). destruct (v_accts v a), (entry (reqs_of t) a); auto.
+    eapply las_ok_mono; eauto.
+  - exact H3.
+  - exact H4.
+  - intros Hb m Hm. apply DM. auto.
+  - intros Hc m Hm. apply DM. auto.
+  - exact H7.
+  - intros Hd x Hx. eapply earlier_done_mono; eauto.
+  - exact H9.
+  - intro St. change (startedb g i = true) in St. congruence.
+  - intros a Ha. right. left. eauto.
+Qed.
+
+Lemma take_snapshot_live g v t i a : vs_ok g i t v -> v_committed v = None -> v_done v = false ->
+  v_accts v a = Some (mkLas WriteLock SLive) -> s_accts (take_snapshot g v) a <> None.
+Proof.
+  intros OK Hc Hnd Ha. unfold take_snapshot. rewrite Hc.
+  destruct (v_wlock v) eqn:W; cbn; rewrite ?Ha; try discriminate.
+  exfalso. rewrite (vo_wlock _ _ _ _ OK), Hnd in W.
+  pose proof (vo_accts _ _ _ _ OK a) as LA. rewrite Ha, (entry_world_write _ a W) in LA. exact LA.
+Qed.
+
+(* the state in which the worker of i makes its first access: a world locker has
+   realized its base, the snapshot is taken *)
+Lemma start_prefix g i t v g' : Inv1 g -> g_work g i = Some WStart ->
+  nth_error txs i = Some t -> g_vs g i = Some v -> step_start txs g i = Some g' ->
+  exists g1 v1, Inv1 g1 /\ st_sim g g1 /\ g_vs g1 i = Some v1 /\
+    v_done v1 = false /\ v_committed v1 = None /\ v_wlock v1 = world_lock (reqs_of t) /\
+    (world_lock (reqs_of t) <> NoLock -> v_base v1 <> None) /\
+    (v_base v = None -> world_lock (reqs_of t) <> NoLock -> forall m, m < i -> is_done g m = true) /\
+    Inv1 (set_vs g1 i (set_snap v1 (take_snapshot g1 v1))) /\
+    match access (set_vs g1 i (set_snap v1 (take_snapshot g1 v1))) i SYS with
+    | Some (g2, _) => Some (set_work g2 i (WRun (tx_prog t)))
+    | None => None
+    end = Some g' /\
+    (g1 = g \/ (realize_base g i = Some g1 /\ v_wlock v <> NoLock)).
+Proof.
+  intros I Hw Ht Hv H. unfold step_start in H. rewrite Ht, Hv in H.
   assert (F : finishedb g i = false) by (unfold finishedb; now rewrite Hw).
   destruct (not_done_of_phase _ _ _ _ I Hv Ht F) as (Hnd & Hc & Hwl).
   rewrite Hc, Hwl in H.
-  (* after GetSnapshot: a state g1 in which a world locker has a base *)
-  assert (exists g1, Inv1 g1 /\ vs_only g g1 /\
+  assert (exists g1, Inv1 g1 /\ st_sim g g1 /\
             (exists v1, g_vs g1 i = Some v1 /\ (world_lock (reqs_of t) <> NoLock -> v_base v1 <> None)) /\
-            match access g1 i SYS with
-            | Some (g2, _) => Some (set_work g2 i (WRun (tx_prog t)))
+            (v_base v = None -> world_lock (reqs_of t) <> NoLock -> forall m, m < i -> is_done g m = true) /\
+            match g_vs g1 i with
+            | Some v1 =>
+                match access (set_vs g1 i (set_snap v1 (take_snapshot g1 v1))) i SYS with
+                | Some (g2, _) => Some (set_work g2 i (WRun (tx_prog t)))
+                | None => None
+                end
             | None => None
-            end = Some g') as (g1 & I1 & VO & (v1 & Hv1 & Hb1) & H1).
+            end = Some g' /\
+            (g1 = g \/ (realize_base g i = Some g1 /\ v_wlock v <> NoLock))) as (g1 & I1 & S1 & (v1 & Hv1 & Hb1) & Hpred & H1 & Org).
   { destruct (world_lock (reqs_of t)) eqn:Wl.
-    - exists g. split; auto. split; [apply vs_only_refl|]. split; auto. exists v; split; auto; congruence.
+    - exists g. split; auto. split; [apply st_sim_refl|]. split; [exists v; split; auto; congruence|].
+      split; [congruence|]. split; [exact H|auto].
     - destruct (realize_base g i) as [g1|] eqn:R; try discriminate.
-      destruct (realize_base_inv1 _ _ _ _ I Hv R) as (I1 & S & (v1 & Hv1 & B & _) & _).
-      exists g1. split; auto. split; [apply S|]. split; auto. eauto.
+      destruct (realize_base_inv1 _ _ _ _ I Hv R) as (I1 & S & (v1 & Hv1 & B & _) & P).
+      exists g1. split; auto. split; auto. split; eauto. split; auto. split; auto. right. split; auto. congruence.
     - destruct (realize_base g i) as [g1|] eqn:R; try discriminate.
-      destruct (realize_base_inv1 _ _ _ _ I Hv R) as (I1 & S & (v1 & Hv1 & B & _) & _).
-      exists g1. split; auto. split; [apply S|]. split; auto. eauto.
+      destruct (realize_base_inv1 _ _ _ _ I Hv R) as (I1 & S & (v1 & Hv1 & B & _) & P).
+      exists g1. split; auto. split; auto. split; eauto. split; auto. split; auto. right. split; auto. congruence.
     - exfalso. destruct (world_lock_cases (reqs_of t)) as [E|[E|E]]; congruence. }
-  destruct (access g1 i SYS) as [[g2 h]|] eqn:A; try discriminate. inversion H1; subst g'. clear H1.
-  destruct (access_inv1 _ _ _ _ _ I1 A) as (I2 & D2 & VO2).
+  rewrite Hv1 in H1.
+  assert (Hw1 : g_work g1 i = Some WStart) by (destruct S1 as [(_ & W & _) _]; now rewrite W).
+  assert (F1 : finishedb g1 i = false) by (unfold finishedb; now rewrite Hw1).
+  destruct (not_done_of_phase _ _ _ _ I1 Hv1 Ht F1) as (Hnd1 & Hc1 & Hwl1).
+  exists g1, v1. repeat (split; [assumption|]). split; [|split; assumption].
+  eapply inv1_set_vs; eauto. intros t' Ht'. assert (t' = t) by congruence; subst t'.
+  apply vs_ok_set_snap; auto.
+  - eapply i_vs_ok; eauto.
+  - unfold startedb. now rewrite Hw1.
+  - intros a Ha. eapply take_snapshot_live; eauto. eapply i_vs_ok; eauto.
+Qed.
+
+Lemma step_start_inv1 g i g' : Inv1 g -> g_work g i = Some WStart -> step_start txs g i = Some g' -> Inv1 g'.
+Proof.
+  intros I Hw H.
+  destruct (nth_error txs i) as [t|] eqn:Ht; [|unfold step_start in H; rewrite Ht in H; discriminate].
+  destruct (g_vs g i) as [v|] eqn:Hv; [|unfold step_start in H; rewrite Ht, Hv in H; discriminate].
+  destruct (start_prefix _ _ _ _ _ I Hw Ht Hv H) as (g1 & v1 & I1 & S1 & Hv1 & Hnd1 & Hc1 & Hwl1 & Hb1 & _ & I1' & H1 & _).
+  set (g1' := set_vs g1 i (set_snap v1 (take_snapshot g1 v1))) in *.
+  destruct (access g1' i SYS) as [[g2 h]|] eqn:A; try discriminate. inversion H1; subst g'. clear H1.
+  destruct (access_inv1 _ _ _ _ _ I1' A) as (I2 & D2 & VO2).
   assert (Hw2 : g_work g2 i = Some WStart).
-  { destruct VO as (_ & W1 & _). destruct VO2 as (_ & W2 & _). rewrite W2, W1. auto. }
+  { destruct S1 as [(_ & W1 & _) _]. destruct VO2 as (_ & W2 & _). rewrite W2. cbn. rewrite W1. auto. }
+  assert (Hv1' : g_vs g1' i = Some (set_snap v1 (take_snapshot g1 v1))) by (unfold g1'; cbn; now rewrite Nat.eqb_refl).
+  destruct (access_keep _ _ _ _ _ _ I1' A Hv1') as (v2 & Hv2 & B2 & Sn2).
   apply inv1_set_work; auto.
   - congruence.
   - unfold finishedb. cbn. now rewrite Nat.eqb_refl, Hw2.
-  - intros _. right. intros v2 t2 Hv2 Ht2 Wl. assert (t2 = t) by congruence; subst t2.
-    destruct (access_base _ _ _ _ _ _ I1 A Hv1 (Hb1 Wl)) as (v2' & Hv2' & B). congruence.
+  - intros _. right. intros v2' t2 Hv2' Ht2. assert (t2 = t) by congruence; subst t2.
+    assert (v2' = v2) by congruence; subst v2'. split.
+    + intro Wl. apply B2. cbn. auto.
+    + rewrite Sn2. cbn. eexists. split; eauto. intro Ww.
+      unfold take_snapshot. rewrite Hc1, Hwl1, Ww. cbn. discriminate.
+Qed.
+
+Lemma reset_real g i g' : reset g i = Some g' -> exists R, g' = set_real g R.
+Proof.
+  unfold reset. destruct (g_vs g i) as [v|]; try discriminate.
+  destruct (v_done v); try discriminate. destruct (v_snap v) as [s|]; try discriminate.
+  destruct (v_wlock v);
+  try (match goal with |- (if ?c then _ else _) = _ -> _ => destruct c; try discriminate end;
+       intro E; inversion E; eauto).
+  destruct (s_base s); try discriminate. intro E; inversion E; eauto.
 Qed.
 
 Lemma step_worker_inv1 g i g' : Inv1 g -> step_worker txs g i = Some g' -> Inv1 g'.
@@ -679,7 +819,7 @@ Proof.
   intros I H. unfold step_worker in H.
   destruct (g_work g i) as [[|p| |]|] eqn:Hw; try discriminate.
   - eapply step_start_inv1; eauto.
-  - destruct p as [r|a k|a x k].
+  - destruct p as [r|a k|a x k|k].
     + destruct (commit (set_rct g i r) i) as [g1|] eqn:C; try discriminate.
       inversion H; subst. eapply commit_inv1; eauto.
     + destruct (access g i a) as [[g1 h]|] eqn:A; try discriminate. inversion H; subst. clear H.
@@ -698,6 +838,14 @@ Proof.
       * cbn. congruence.
       * unfold finishedb. cbn. now rewrite Nat.eqb_refl, Hw1.
       * intros _. left. unfold startedb. cbn. now rewrite Hw1.
+    + destruct (reset g i) as [g1|] eqn:R; try discriminate. inversion H; subst. clear H.
+      destruct (reset_real _ _ _ R) as [Rw ->].
+      assert (I2 : Inv1 (set_real g Rw)).
+      { eapply inv1_frame; eauto; intros; reflexivity. }
+      apply inv1_set_work; auto.
+      * cbn. congruence.
+      * unfold finishedb. cbn. now rewrite Nat.eqb_refl, Hw.
+      * intros _. left. unfold startedb. cbn. now rewrite Hw.
   - inversion H; subst. clear H.
     assert (I2 : Inv1 (set_tokens g (S (g_tokens g)))).
     { eapply inv1_frame; eauto; intros; reflexivity. }
@@ -738,6 +886,18 @@ Proof.
   - intro a. now rewrite (entry_world_write _ a Wl).
   - intros a Ha. rewrite (entry_world_write _ a Wl) in Ha. congruence.
   - intro a. unfold get_locker, can_write. cbn. now rewrite Wl.
+Qed.
+
+Lemma get_future_snap g i t vn : g_vs (get_future g i t) i = Some vn -> v_snap vn = None.
+Proof.
+  unfold get_future. destruct (world_lock (reqs_of t)); cbn; rewrite Nat.eqb_refl;
+  intro E; inversion E; reflexivity.
+Qed.
+
+Lemma get_future_lbase g i t vn a : g_vs (get_future g i t) i = Some vn -> v_lbase vn a = None.
+Proof.
+  unfold get_future. destruct (world_lock (reqs_of t)); cbn; rewrite Nat.eqb_refl;
+  intro E; inversion E; reflexivity.
 Qed.
 
 Lemma prepare_inv1 g i t : Inv1 g -> g_disp g = DPrepare i -> nth_error txs i = Some t ->
@@ -787,6 +947,8 @@ Proof.
       * rewrite Sm. unfold startedb. rewrite Wnone. discriminate.
       * rewrite Dn. discriminate.
       * rewrite Bn. intros ->. cbn. congruence.
+      * rewrite Sm. unfold startedb. rewrite Wnone. discriminate.
+      * intros a _. left. apply (get_future_snap g i t). rewrite Hvs, Nat.eqb_refl. reflexivity.
     + destruct (Nat.eqb_spec m i); [congruence|].
       apply (vs_ok_mono g g' m tm v DM Fm); [rewrite Sm; auto | eapply i_vs_ok; eauto].
   - intro a. unfold g'. cbn [dcount g_disp set_disp].
@@ -1012,34 +1174,25 @@ Lemma step_worker_inv3 g i g' : Inv1 g -> Inv3 g -> step_worker txs g i = Some g
 Proof.
   intros I I3 H. unfold step_worker in H.
   destruct (g_work g i) as [[|p| |]|] eqn:Hw; try discriminate.
-  - unfold step_start in H.
-    destruct (nth_error txs i) as [t|] eqn:Ht; try discriminate.
-    destruct (g_vs g i) as [v|] eqn:Hv; try discriminate.
-    assert (exists g1, Inv1 g1 /\ vs_only g g1 /\
-              match access g1 i SYS with
-              | Some (g2, _) => Some (set_work g2 i (WRun (tx_prog t)))
-              | None => None
-              end = Some g') as (g1 & I1 & VO & H1).
-    { destruct (v_committed v).
-      { exists g. split; auto. split; auto using vs_only_refl. }
-      destruct (v_wlock v).
-      - exists g. split; auto. split; auto using vs_only_refl.
-      - destruct (realize_base g i) as [g1|] eqn:R; try discriminate.
-        destruct (realize_base_inv1 _ _ _ _ I Hv R) as (I1 & S & _).
-        exists g1. split; auto. split; auto. apply S.
-      - destruct (realize_base g i) as [g1|] eqn:R; try discriminate.
-        destruct (realize_base_inv1 _ _ _ _ I Hv R) as (I1 & S & _).
-        exists g1. split; auto. split; auto. apply S.
-      - exists g. split; auto. split; auto using vs_only_refl. }
-    destruct (access g1 i SYS) as [[g2 h]|] eqn:A; try discriminate. inversion H1; subst g'.
-    destruct (access_inv1 _ _ _ _ _ I1 A) as (_ & _ & VO2).
-    pose proof (vs_only_trans _ _ _ VO VO2) as (_ & W & _ & T & _).
+  - destruct (nth_error txs i) as [t|] eqn:Ht; [|unfold step_start in H; rewrite Ht in H; discriminate].
+    destruct (g_vs g i) as [v|] eqn:Hv; [|unfold step_start in H; rewrite Ht, Hv in H; discriminate].
+    destruct (start_prefix _ _ _ _ _ I Hw Ht Hv H) as (g1 & v1 & I1 & S1 & Hv1 & _ & _ & _ & _ & _ & I1' & H1 & _).
+    set (g1' := set_vs g1 i (set_snap v1 (take_snapshot g1 v1))) in *.
+    destruct (access g1' i SYS) as [[g2 h]|] eqn:A; try discriminate. inversion H1; subst g'.
+    destruct (access_inv1 _ _ _ _ _ I1' A) as (_ & _ & (_ & W2 & _ & T2 & _)).
+    destruct S1 as [(_ & W1 & _ & T1 & _) _].
+    assert (W : g_work g2 = g_work g) by (rewrite W2; cbn; exact W1).
+    assert (T : g_tokens g2 = g_tokens g) by (rewrite T2; cbn; exact T1).
     eapply inv3_set_work; eauto.
     + unfold unfinishedb. now rewrite Hw.
     + exists t. split; auto. apply (Hwd _ _ Ht).
   - destruct (i_progs _ I3 _ _ Hw) as (t & Ht & TO).
     assert (U : unfinishedb g i = true) by (unfold unfinishedb; now rewrite Hw).
-    destruct p as [r|a k|a x k].
+    destruct p as [r|a k|a x k|k].
+    4:{ destruct (reset g i) as [g1|] eqn:R; try discriminate. inversion H; subst.
+        destruct (reset_real _ _ _ R) as [Rw ->].
+        eapply (inv3_set_work g (set_real g Rw)); eauto. exists t. split; auto.
+        apply touches_fail_inv in TO. exact TO. }
     + destruct (commit (set_rct g i r) i) as [g1|] eqn:C; try discriminate. inversion H; subst.
       assert (W : g_work g1 = g_work g /\ g_tokens g1 = g_tokens g).
       { unfold commit in C. cbn [g_vs set_rct] in C. destruct (g_vs g i) as [v|]; try discriminate.
@@ -1136,6 +1289,28 @@ Proof.
   unfold unfinishedb in U. unfold finishedb. rewrite Hp in *. destruct p; congruence.
 Qed.
 
+(* Reset never hits a nil snapshot *)
+Lemma reset_enabled g i v t : Inv1 g -> g_vs g i = Some v -> nth_error txs i = Some t ->
+  v_done v = false -> startedb g i = true -> exists g', reset g i = Some g'.
+Proof.
+  intros I Hv Ht Hnd St. pose proof (i_vs_ok _ I _ _ _ Hv Ht) as OK.
+  destruct (vo_snap _ _ _ _ OK St) as (s & Hs & Hsb).
+  unfold reset. rewrite Hv, Hnd, Hs.
+  assert (Hwl : v_wlock v = world_lock (reqs_of t)) by (rewrite (vo_wlock _ _ _ _ OK), Hnd; auto).
+  assert (FA : forallb (fun a => match reset_val v s a with Some _ => true | None => false end) (v_keys v) = true).
+  { apply forallb_forall. intros a _. unfold reset_val.
+    pose proof (vo_accts _ _ _ _ OK a) as LA.
+    destruct (v_accts v a) as [[l st]|] eqn:Ha; auto. destruct l; auto.
+    destruct (s_accts s a) eqn:Sa; auto. destruct st as [d| |x]; auto.
+    - destruct (s_base s); auto.
+      destruct (vo_lbase _ _ _ _ OK a Ha) as [N|[(s' & Hs' & N)|N]]; try congruence.
+      destruct (v_lbase v a); auto; congruence.
+    - exfalso. destruct (entry (reqs_of t) a) as [e|]; try contradiction.
+      destruct LA as [L1 [[L2|L2] _]]; cbn in *; rewrite Hnd in *; try congruence; subst e; discriminate. }
+  rewrite Hwl. destruct (world_lock (reqs_of t)) eqn:Wl; rewrite ?FA; eauto.
+  destruct (s_base s) eqn:B; eauto. exfalso. apply Hsb; auto.
+Qed.
+
 (* a spawned, unfinished worker all of whose predecessors have committed can take a step *)
 Lemma worker_enabled g i : Inv1 g -> Inv3 g -> unfinishedb g i = true ->
   (forall m, m < i -> is_done g m = true) -> exists g', step_worker txs g i = Some g'.
@@ -1155,18 +1330,32 @@ Proof.
       (destruct (realize_base_enabled _ _ _ _ I Hv Ht D) as [g1 R]; exists g1; split; auto;
        destruct (realize_base_inv1 _ _ _ _ I Hv R) as (I1 & S & _); auto). }
     rewrite E.
-    assert (exists v1, g_vs g1 i = Some v1 /\ v_done v1 = false) as (v1 & Hv1 & Hnd1).
+    assert (exists v1, g_vs g1 i = Some v1) as (v1 & Hv1).
     { destruct S1 as [_ S1]. specialize (S1 i). rewrite Hv in S1.
-      destruct (g_vs g1 i) as [v1|]; try contradiction. exists v1. split; auto.
-      destruct S1 as (_ & _ & Dn & _). congruence. }
-    destruct (access_enabled g1 i SYS v1 t I1 Hv1 Ht Hnd1) as (g2 & h & A & _).
-    + intros m Hm. rewrite (st_sim_done _ _ _ S1). auto.
+      destruct (g_vs g1 i) as [v1|]; try contradiction. eauto. }
+    rewrite Hv1.
+    assert (Hw1 : g_work g1 i = Some WStart) by (destruct S1 as [(_ & W & _) _]; now rewrite W).
+    assert (F1 : finishedb g1 i = false) by (unfold finishedb; now rewrite Hw1).
+    destruct (not_done_of_phase _ _ _ _ I1 Hv1 Ht F1) as (Hnd1 & Hc1 & Hwl1).
+    set (v1' := set_snap v1 (take_snapshot g1 v1)).
+    assert (I1' : Inv1 (set_vs g1 i v1')).
+    { eapply inv1_set_vs; eauto. intros t' Ht'. assert (t' = t) by congruence; subst t'.
+      apply vs_ok_set_snap; auto.
+      - eapply i_vs_ok; eauto.
+      - unfold startedb. now rewrite Hw1.
+      - intros a Ha. eapply take_snapshot_live; eauto. eapply i_vs_ok; eauto. }
+    destruct (access_enabled (set_vs g1 i v1') i SYS v1' t I1') as (g2 & h & A & _); auto.
+    + cbn. now rewrite Nat.eqb_refl.
+    + intros m Hm. rewrite is_done_set_vs. destruct (Nat.eqb_spec m i); [lia|].
+      rewrite (st_sim_done _ _ _ S1). auto.
     + apply can_read_sys.
     + rewrite A. eauto.
   - assert (F : finishedb g i = false) by (unfold finishedb; now rewrite Hw).
     destruct (not_done_of_phase _ _ _ _ I Hv Ht F) as (Hnd & Hc & Hwl).
     destruct (i_progs _ I3 _ _ Hw) as (t' & Ht' & TO). assert (t' = t) by congruence; subst t'.
-    destruct p as [r|a k|a x k].
+    destruct p as [r|a k|a x k|k].
+    4:{ assert (St : startedb g i = true) by (unfold startedb; now rewrite Hw).
+        destruct (reset_enabled g i v t I Hv Ht Hnd St) as [g' R]. rewrite R. eauto. }
     + assert (I' : Inv1 (set_rct g i r)) by (eapply inv1_frame; eauto; intros; reflexivity).
       destruct (commit_enabled (set_rct g i r) i v t I' Hv Ht Hnd) as [g' C]; auto.
       rewrite C. eauto.
